@@ -57,6 +57,8 @@ def contracts():
     from contracts import C10
     cs += common.shared(C10, ['matching.Not.glomit', 'matching.And._glomit', 'matching.Or._glomit', 'matching._Bool.glomit', 'matching._Bool.__init__'])
     cs += common.shared(X_ctor, ['matching.Not.__init__'])
+    cs += common.shared(X_ctor, ['matching.TypeMatchError.__init__'])
+    cs += common.shared(C10, ['matching.Regex.__init__'])
     cs += common.shared(C08, ['core.chain_child'])
     return cs
 
